@@ -144,6 +144,10 @@ func cmdCheck(args []string) int {
 		f, _ := os.Create(*cpuprof)
 		pprof.StartCPUProfile(f)
 		defer pprof.StopCPUProfile()
+		if d := os.Getenv("GOSMT_PROFSEC"); d != "" {
+			n, _ := strconv.Atoi(d)
+			go func() { time.Sleep(time.Duration(n) * time.Second); pprof.StopCPUProfile(); os.Exit(3) }()
+		}
 	}
 	g.loadKnown()
 	all := g.Harnesses(*tier)
